@@ -97,14 +97,15 @@ const (
 var c12Keys = [3]HtlcSetKey{LocalHtlcSet, RemoteHtlcSet, RemotePendingHtlcSet}
 
 type c12Slot struct {
-	on bool
+	on bool // concrete on every path (vChoice)
 	h  channeldb.HTLC
 }
 
 type c12World struct {
 	n        int
 	slots    [3][2][]c12Slot // [commitment][0 offered / 1 received][k]
-	rpExists bool
+	rpExists bool            // concrete on every path
+	dom      bool            // conjunction of the domain assumptions
 	height   uint32
 	inDelta  uint32
 	outDelta uint32
@@ -113,20 +114,22 @@ type c12World struct {
 	invPre   uint8
 	invNone  bool
 	fwdMask  uint16
-	upNs     int64 // node up time in ns (exact)
+	upNs     int64 // node up time in ns
 	grace    time.Duration
 	arb      *ChannelArbitrator
 }
 
-func c12Name(c, d, k int, field string) string {
-	cs := [3]string{"L", "R", "P"}
-	ds := [2]string{"out", "in"}
-	ks := [4]string{"0", "1", "2", "3"}
+var (
+	c12CS = [3]string{"L", "R", "P"}
+	c12DS = [2]string{"out", "in"}
+	c12KS = [4]string{"0", "1", "2", "3"}
+)
 
-	return cs[c] + "." + ds[d] + ks[k] + "." + field
+func c12Name(c, d, k int, field string) string {
+	return c12CS[c] + "." + c12DS[d] + c12KS[k] + "." + field
 }
 
-// c12Known is the definition of "the node knows the preimage of hash h0".
+// known is the definition of "the node knows the preimage of hash h0".
 func (w *c12World) known(h0 uint8) bool {
 	bit := h0 & 7
 	cached := (w.pdb>>bit)&1 == 1
@@ -141,24 +144,31 @@ func (w *c12World) forwarded(idx uint64) bool {
 	return (w.fwdMask>>(idx&15))&1 == 1
 }
 
-// pastCutoff: height >= expiry - delta, in unbounded arithmetic.
+// c12PastCutoff: height >= expiry - delta, in unbounded arithmetic.
 func c12PastCutoff(height, expiry, delta uint32) bool {
 	return uint64(height)+uint64(delta) >= uint64(expiry)
 }
 
-// mustAct: the property's go-on-chain condition for an HTLC we offered.
+// offeredDue: the property's go-on-chain condition for an HTLC we offered.
 func (w *c12World) offeredDue(h *channeldb.HTLC) bool {
 	return c12PastCutoff(w.height, h.RefundTimeout, w.outDelta) &&
 		(w.forwarded(h.HtlcIndex) || w.upNs > int64(w.grace))
 }
 
+// receivedDue: ... and for an HTLC we received.
 func (w *c12World) receivedDue(h *channeldb.HTLC) bool {
 	return c12PastCutoff(w.height, h.RefundTimeout, w.inDelta) &&
 		w.known(h.RHash[0])
 }
 
+// c12NewWorld builds the symbolic world. Shape (which slots hold an HTLC,
+// whether a pending remote commitment exists) is a
+// concrete case split (vChoice); indexes, expiries, output indexes (their sign
+// = dust or not), hashes,
+// height, deltas, preimage knowledge, forwarded bits, up time and grace period
+// are symbolic.
 func c12NewWorld(n int) *c12World {
-	w := &c12World{n: n}
+	w := &c12World{n: n, dom: true}
 	w.height = vU32("height")
 	w.inDelta = vU32("inDelta")
 	w.outDelta = vU32("outDelta")
@@ -167,29 +177,47 @@ func c12NewWorld(n int) *c12World {
 	w.invPre = vU8("invoiceWithPreimage")
 	w.invNone = vBool("noInvoicesCreated")
 	w.fwdMask = vU16("forwardedMask")
-	w.rpExists = vBool("remotePendingExists")
 
 	for c := 0; c < 3; c++ {
+		// presence pattern of commitment c: bit (d*n+k) = slot (d,k) holds
+		// an HTLC; for the pending remote commitment the extra value
+		// 1<<(2n) means "there is no pending remote commitment".
+		nPat := 1 << (2 * n)
+		extra := 0
+		if c == c12RP {
+			extra = 1
+		}
+		pat := vChoice("pres"+c12CS[c], nPat+extra)
+		if c == c12RP {
+			w.rpExists = pat != nPat
+			if !w.rpExists {
+				pat = 0
+			}
+		}
 		for d := 0; d < 2; d++ {
 			for k := 0; k < n; k++ {
 				var s c12Slot
-				s.on = vBool(c12Name(c, d, k, "on"))
-				s.h.Incoming = d == 1
-				s.h.HtlcIndex = vU64(c12Name(c, d, k, "idx"))
-				s.h.RefundTimeout = vU32(c12Name(c, d, k, "expiry"))
-				s.h.OutputIndex = vI32(c12Name(c, d, k, "outputIndex"))
-				s.h.RHash[0] = vU8(c12Name(c, d, k, "hash"))
-				s.h.Amt = lnwire.MilliSatoshi(1000)
-				if c == c12RP && !w.rpExists {
-					vAssume(!s.on)
+				s.on = (pat>>(d*n+k))&1 == 1
+				// slots of one (commitment, direction) are
+				// interchangeable: fill them from the front.
+				if s.on && k > 0 && !w.slots[c][d][k-1].on {
+					vAssume(false)
 				}
-				// Domain: expiry - delta does not wrap (expiries are
-				// absolute block heights, the deltas are small
-				// configured block counts).
-				if d == 0 {
-					vAssume(s.h.RefundTimeout >= w.outDelta)
-				} else {
-					vAssume(s.h.RefundTimeout >= w.inDelta)
+				s.h.Incoming = d == 1
+				s.h.Amt = lnwire.MilliSatoshi(1000)
+				if s.on {
+					s.h.HtlcIndex = vU64(c12Name(c, d, k, "idx"))
+					s.h.RefundTimeout = vU32(c12Name(c, d, k, "expiry"))
+					s.h.OutputIndex = vI32(c12Name(c, d, k, "outputIndex"))
+					s.h.RHash[0] = vU8(c12Name(c, d, k, "hash"))
+					// Domain: expiry - delta does not wrap (expiries
+					// are absolute block heights, the deltas small
+					// configured block counts).
+					if d == 0 {
+						w.dom = w.dom && s.h.RefundTimeout >= w.outDelta
+					} else {
+						w.dom = w.dom && s.h.RefundTimeout >= w.inDelta
+					}
 				}
 				w.slots[c][d] = append(w.slots[c][d], s)
 			}
@@ -203,29 +231,42 @@ func c12NewWorld(n int) *c12World {
 		for c1 := 0; c1 < 3; c1++ {
 			for k1 := 0; k1 < n; k1++ {
 				a := &w.slots[c1][d][k1]
+				if !a.on {
+					continue
+				}
 				for k2 := k1 + 1; k2 < n; k2++ {
 					b := &w.slots[c1][d][k2]
-					vAssume(a.h.HtlcIndex != b.h.HtlcIndex)
+					if b.on {
+						w.dom = w.dom && a.h.HtlcIndex != b.h.HtlcIndex
+					}
 				}
 				for c2 := c1 + 1; c2 < 3; c2++ {
 					for k2 := 0; k2 < n; k2++ {
 						b := &w.slots[c2][d][k2]
-						vAssume(a.h.HtlcIndex != b.h.HtlcIndex ||
-							(a.h.RefundTimeout == b.h.RefundTimeout &&
-								a.h.RHash[0] == b.h.RHash[0]))
+						if b.on {
+							w.dom = w.dom && (a.h.HtlcIndex != b.h.HtlcIndex ||
+								(a.h.RefundTimeout == b.h.RefundTimeout &&
+									a.h.RHash[0] == b.h.RHash[0]))
+						}
 					}
 				}
 			}
 		}
 	}
 
-	// Clock: the arbitrator was started at startSec and it is now nowSec
-	// (whole seconds since the epoch, up to 2^32 = year 2106).
-	startSec, nowSec := vU32("startSec"), vU32("nowSec")
+	// Clock: the node has been up for upNs nanoseconds (any value, also
+	// negative: wall clocks can step back) when the block arrives.
+	up := vI64("upTimeNs")
 	g := vI64("gracePeriodNs")
-	vAssume(g >= 0 && g < 1<<62)
+	w.dom = w.dom && g >= 0 && g < 1<<62 && up > -(1<<62) && up < 1<<62
 	w.grace = time.Duration(g)
-	w.upNs = (int64(nowSec) - int64(startSec)) * 1_000_000_000
+	w.upNs = up
+	c12Up = time.Duration(up)
+	start := time.Unix(1_700_000_000, 0)
+	now := start
+	if vNative() {
+		now = start.Add(time.Duration(up))
+	}
 
 	var cfg ChannelArbitratorConfig
 	cfg.IncomingBroadcastDelta = w.inDelta
@@ -238,11 +279,11 @@ func c12NewWorld(n int) *c12World {
 	cfg.IsForwardedHTLC = func(_ lnwire.ShortChannelID, idx uint64) bool {
 		return w.forwarded(idx)
 	}
-	cfg.Clock = &c12Clock{now: time.Unix(int64(nowSec), 0)}
+	cfg.Clock = &c12Clock{now: now}
 
 	w.arb = &ChannelArbitrator{
 		cfg:            cfg,
-		startTimestamp: time.Unix(int64(startSec), 0),
+		startTimestamp: start,
 		activeHTLCs:    make(map[HtlcSetKey]htlcSet),
 		unmergedSet:    make(map[HtlcSetKey]htlcSet),
 	}
@@ -264,44 +305,51 @@ func (w *c12World) htlcs(c int) []channeldb.HTLC {
 	return r
 }
 
-// onCommit: is there a present slot for HTLC (idx, dir d) on commitment c?
+// onCommit: is there an HTLC (idx, direction d) on commitment c?
 func (w *c12World) onCommit(c, d int, idx uint64) bool {
 	r := false
 	for k := range w.slots[c][d] {
 		s := &w.slots[c][d][k]
-		r = r || (s.on && s.h.HtlcIndex == idx)
+		if s.on {
+			r = r || s.h.HtlcIndex == idx
+		}
 	}
 
 	return r
 }
 
-// dustOn: the HTLC (idx, d) is present on c with a negative output index.
+// dustOn: the HTLC (idx, d) is on c with a negative output index.
 func (w *c12World) dustOn(c, d int, idx uint64) bool {
 	r := false
 	for k := range w.slots[c][d] {
 		s := &w.slots[c][d][k]
-		r = r || (s.on && s.h.HtlcIndex == idx && s.h.OutputIndex < 0)
+		if s.on {
+			r = r || (s.h.HtlcIndex == idx && s.h.OutputIndex < 0)
+		}
 	}
 
 	return r
 }
 
-// vC12TimeSub replaces (time.Time).Sub in the symbolic run only (native replay
-// runs the real Sub): for instants without monotonic reading whose distance
-// fits a Duration (ours are < 2^32 s apart) Sub is the difference of the
-// UnixNano values; the real implementation verifies its result through
-// Add/Equal, whose divisions by 1e9 make every query expensive.
-func vC12TimeSub(t, u time.Time) time.Duration {
-	return time.Duration(t.UnixNano() - u.UnixNano())
-}
+// vC12TimeSub replaces (time.Time).Sub in the symbolic run only: there
+// Clock.Now().Sub(startTimestamp) simply IS the symbolic up time. Native
+// replay runs the real Sub on start and start.Add(up), which returns up
+// exactly (|up| < 2^62 ns). The real implementation verifies its result
+// through Add/Equal, whose 64-bit multiplications/divisions by 1e9 would push
+// every query to the slow solver portfolio.
+var c12Up time.Duration
+
+func vC12TimeSub(t, u time.Time) time.Duration { return c12Up }
 
 func c12Config() {
 	vReplace("(time.Time).Sub", "github.com/lightningnetwork/lnd/contractcourt.vC12TimeSub")
-	vMerge("(*github.com/lightningnetwork/lnd/contractcourt.ChannelArbitrator).shouldGoOnChain")
-	vMerge("(*github.com/lightningnetwork/lnd/contractcourt.ChannelArbitrator).isPreimageAvailable")
+	if C12_MERGE {
+		vMerge("(*github.com/lightningnetwork/lnd/contractcourt.ChannelArbitrator).shouldGoOnChain")
+		vMerge("(*github.com/lightningnetwork/lnd/contractcourt.ChannelArbitrator).isPreimageAvailable")
+	}
 	vAssumption("expiry >= broadcast delta for every HTLC (expiry - delta does not wrap)")
 	vAssumption("HTLC indexes distinct per commitment and direction; the same (index, direction) carries the same hash and expiry on every commitment")
-	vAssumption("fakes: PreimageDB / Registry answer as an arbitrary function of hash[0] mod 8 (never an unexpected DB error); IsForwardedHTLC an arbitrary function of index mod 16; Clock fixed at an arbitrary instant")
+	vAssumption("fakes: PreimageDB / Registry answer as an arbitrary function of hash[0] mod 8 (never an unexpected DB error); IsForwardedHTLC an arbitrary function of index mod 16; Clock: Now()-startTimestamp is an arbitrary duration in (-2^62, 2^62) ns, grace period in [0, 2^62) ns")
 }
 
 func c12Count(m ChainActionMap, a ChainAction, idx uint64, incoming bool) int {
@@ -324,6 +372,7 @@ func c12GoOnChain(n int) {
 	c12Config()
 	w := c12NewWorld(n)
 	c := w.arb
+	vAssume(w.dom)
 
 	// The link's view as delivered through notifyContractUpdate.
 	c.unmergedSet[LocalHtlcSet] = newHtlcSet(w.htlcs(c12L))
@@ -338,43 +387,38 @@ func c12GoOnChain(n int) {
 	)
 	vAssert(err == nil, "go: no error")
 
-	want := false
 	offeredDue, receivedDue, danglingDue := false, false, false
-	unclaimable := false
+	nOut, nIn := 0, 0
 	for k := range w.slots[c12L][0] {
 		s := &w.slots[c12L][0][k]
-		offeredDue = offeredDue || (s.on && w.offeredDue(&s.h))
+		if s.on {
+			nOut++
+			offeredDue = offeredDue || w.offeredDue(&s.h)
+		}
 	}
 	for k := range w.slots[c12L][1] {
 		s := &w.slots[c12L][1][k]
-		receivedDue = receivedDue || (s.on && w.receivedDue(&s.h))
-		unclaimable = unclaimable || (s.on && !w.known(s.h.RHash[0]))
+		if s.on {
+			nIn++
+			receivedDue = receivedDue || w.receivedDue(&s.h)
+		}
 	}
 	for cc := c12R; cc <= c12RP; cc++ {
 		for k := range w.slots[cc][0] {
 			s := &w.slots[cc][0][k]
-			danglingDue = danglingDue || (s.on &&
-				!w.onCommit(c12L, 0, s.h.HtlcIndex) &&
-				w.offeredDue(&s.h) && !w.known(s.h.RHash[0]))
+			if s.on {
+				danglingDue = danglingDue ||
+					(!w.onCommit(c12L, 0, s.h.HtlcIndex) &&
+						w.offeredDue(&s.h) && !w.known(s.h.RHash[0]))
+			}
 		}
 	}
-	want = offeredDue || receivedDue || danglingDue
+	want := offeredDue || receivedDue || danglingDue
 	goes := len(actions) != 0
 
 	vAssert(!want || goes, "go: force close is decided once an offered HTLC (forwarded, or own after the grace period) or a claimable received HTLC is within its broadcast delta")
 	vAssert(!goes || want, "go: force close is decided only for a due offered HTLC or a due received HTLC with known preimage (never for a received HTLC that cannot be claimed)")
 
-	nOut, nIn := 0, 0
-	for k := range w.slots[c12L][0] {
-		if w.slots[c12L][0][k].on {
-			nOut++
-		}
-	}
-	for k := range w.slots[c12L][1] {
-		if w.slots[c12L][1][k].on {
-			nIn++
-		}
-	}
 	local := len(actions[HtlcTimeoutAction]) + len(actions[HtlcOutgoingWatchAction]) +
 		len(actions[HtlcIncomingWatchAction]) + len(actions[HtlcIncomingDustFinalAction])
 	switch {
@@ -400,17 +444,17 @@ func c12Confirmed(n int, chainTrig bool) {
 	c := w.arb
 
 	k := vChoice("confirmed", 3)
-	if k == c12RP {
-		vAssume(w.rpExists)
+	if k == c12RP && !w.rpExists {
+		vAssume(false)
 	}
 
 	trigger := transitionTrigger(vU8("trigger"))
 	if chainTrig {
-		vAssume(trigger == chainTrigger)
+		w.dom = w.dom && trigger == chainTrigger
 	} else {
 		// every trigger with which a confirmed commit set is evaluated
 		// by stateStep, except the block-epoch trigger (separate entry).
-		vAssume(trigger != chainTrigger && trigger <= breachCloseTrigger)
+		w.dom = w.dom && trigger != chainTrigger && trigger <= breachCloseTrigger
 	}
 
 	// Domain (BOLT-2 update ordering): an HTLC we offered reaches the peer's
@@ -419,14 +463,21 @@ func c12Confirmed(n int, chainTrig bool) {
 	if k != c12L {
 		for i := range w.slots[c12L][0] {
 			s := &w.slots[c12L][0][i]
-			vAssume(!s.on || w.onCommit(k, 0, s.h.HtlcIndex))
+			if s.on {
+				w.dom = w.dom && w.onCommit(k, 0, s.h.HtlcIndex)
+			}
 		}
 	}
+	vAssume(w.dom)
 
 	// Insertion order of the sets (the engine ranges over maps in insertion
 	// order; Go's order is random).
 	sets := make(map[HtlcSetKey][]channeldb.HTLC)
-	if vChoice("setOrder", 2) == 0 {
+	order := 0
+	if k == c12L && w.rpExists {
+		order = vChoice("setOrder", 2)
+	}
+	if order == 0 {
 		sets[LocalHtlcSet] = w.htlcs(c12L)
 		sets[RemoteHtlcSet] = w.htlcs(c12R)
 		if w.rpExists {
@@ -447,7 +498,19 @@ func c12Confirmed(n int, chainTrig bool) {
 	c12CheckDisposition(w, k, actions)
 }
 
+const (
+	c12MsgOutRes   = "conf: an offered HTLC with an output on the confirmed commitment gets exactly one outgoing resolver and is never failed back upstream"
+	c12MsgOutDust  = "conf: an offered HTLC that is dust on the confirmed commitment is failed back exactly once (FailDust) and gets no resolver"
+	c12MsgDangling = "conf: an offered HTLC that is only on a non-confirmed commitment is failed back exactly once unless its preimage is known (then not at all) and gets no resolver"
+	c12MsgInRes    = "conf: a received HTLC with an output on the confirmed commitment gets exactly one incoming resolver"
+	c12MsgInOther  = "conf: a received dust HTLC is closed out exactly once without resolver; a received HTLC not on the confirmed commitment gets no action; received HTLCs are never failed back"
+	c12MsgNoExtra  = "conf: every entry of the action map is an HTLC of the commit set and a resolver entry is the HTLC as it is on the confirmed commitment (with an output)"
+)
+
 func c12CheckDisposition(w *c12World, k int, actions ChainActionMap) {
+	okOutRes, okOutDust, okDangling := true, true, true
+	okInRes, okInOther, okNoExtra := true, true, true
+
 	// (a) every HTLC known on any commitment gets exactly its disposition
 	for c := 0; c < 3; c++ {
 		for d := 0; d < 2; d++ {
@@ -473,35 +536,24 @@ func c12CheckDisposition(w *c12World, k int, actions ChainActionMap) {
 				outRes := nTimeout + nOutWatch
 				inRes := nClaim + nInWatch
 				failBack := nFailDust + nFailDangling
+				other := nDustFinal + nNone
 
 				if d == 0 {
-					vAssert(!(onK && !dustK) || (outRes == 1 && inRes == 0),
-						"conf: offered HTLC with an output on the confirmed commitment gets exactly one outgoing resolver")
-					vAssert(!(onK && !dustK) || failBack == 0,
-						"conf: no upstream fail-back for an offered HTLC that has an output on the confirmed commitment")
-					vAssert(!(onK && dustK) || (nFailDust == 1 && nFailDangling == 0),
-						"conf: offered HTLC that is dust on the confirmed commitment is failed back exactly once (FailDust)")
-					vAssert(!(onK && dustK) || (outRes == 0 && inRes == 0),
-						"conf: offered dust HTLC gets no resolver")
-					vAssert(!(!onK && !known) || failBack == 1,
-						"conf: offered HTLC that is only on a non-confirmed commitment is failed back exactly once")
-					vAssert(!(!onK && known) || failBack == 0,
-						"conf: offered HTLC on a non-confirmed commitment is not failed back when its preimage is known")
-					vAssert(onK || (outRes == 0 && inRes == 0),
-						"conf: offered HTLC without an output on the confirmed commitment gets no resolver")
-					vAssert(nDustFinal == 0 && nNone == 0,
-						"conf: offered HTLC never in an incoming-only list")
+					okOutRes = okOutRes && (!(onK && !dustK) ||
+						(outRes == 1 && inRes == 0 && failBack == 0 && other == 0))
+					okOutDust = okOutDust && (!(onK && dustK) ||
+						(nFailDust == 1 && nFailDangling == 0 &&
+							outRes == 0 && inRes == 0 && other == 0))
+					okDangling = okDangling && (onK ||
+						(outRes == 0 && inRes == 0 && other == 0 &&
+							((known && failBack == 0) || (!known && failBack == 1))))
 				} else {
-					vAssert(!(onK && !dustK) || (inRes == 1 && outRes == 0),
-						"conf: received HTLC with an output on the confirmed commitment gets exactly one incoming resolver")
-					vAssert(!(onK && !dustK) || nDustFinal == 0,
-						"conf: received non-dust HTLC is not closed out as dust")
-					vAssert(!(onK && dustK) || (nDustFinal == 1 && inRes == 0 && outRes == 0),
-						"conf: received dust HTLC is closed out exactly once without a resolver")
-					vAssert(onK || (inRes == 0 && outRes == 0 && nDustFinal == 0),
-						"conf: received HTLC that is not on the confirmed commitment gets no action")
-					vAssert(failBack == 0 && nNone == 0,
-						"conf: received HTLC never in a fail-back list")
+					okInRes = okInRes && (!(onK && !dustK) ||
+						(inRes == 1 && outRes == 0 && other == 0 && failBack == 0))
+					okInOther = okInOther && (!(onK && dustK) ||
+						(nDustFinal == 1 && nNone == 0 && inRes == 0 && outRes == 0)) &&
+						(onK || (inRes == 0 && outRes == 0 && other == 0)) &&
+						failBack == 0
 				}
 			}
 		}
@@ -515,10 +567,9 @@ func c12CheckDisposition(w *c12World, k int, actions ChainActionMap) {
 			if h.Incoming {
 				d = 1
 			}
-			somewhere := w.onCommit(c12L, d, h.HtlcIndex) ||
+			okNoExtra = okNoExtra && (w.onCommit(c12L, d, h.HtlcIndex) ||
 				w.onCommit(c12R, d, h.HtlcIndex) ||
-				w.onCommit(c12RP, d, h.HtlcIndex)
-			vAssert(somewhere, "conf: every entry of the action map is an HTLC of the commit set")
+				w.onCommit(c12RP, d, h.HtlcIndex))
 
 			switch a {
 			case HtlcTimeoutAction, HtlcOutgoingWatchAction,
@@ -527,14 +578,14 @@ func c12CheckDisposition(w *c12World, k int, actions ChainActionMap) {
 				same := false
 				for i := range w.slots[k][d] {
 					s := &w.slots[k][d][i]
-					same = same || (s.on &&
-						s.h.HtlcIndex == h.HtlcIndex &&
-						s.h.OutputIndex == h.OutputIndex &&
-						s.h.RefundTimeout == h.RefundTimeout &&
-						s.h.RHash[0] == h.RHash[0])
+					if s.on {
+						same = same || (s.h.HtlcIndex == h.HtlcIndex &&
+							s.h.OutputIndex == h.OutputIndex &&
+							s.h.RefundTimeout == h.RefundTimeout &&
+							s.h.RHash[0] == h.RHash[0])
+					}
 				}
-				vAssert(same, "conf: a resolver entry is the HTLC as it is on the confirmed commitment")
-				vAssert(h.OutputIndex >= 0, "conf: a resolver entry has an output")
+				okNoExtra = okNoExtra && same && h.OutputIndex >= 0
 				if d == 0 {
 					vReach("resolver-offered")
 				} else {
@@ -549,6 +600,13 @@ func c12CheckDisposition(w *c12World, k int, actions ChainActionMap) {
 			}
 		}
 	}
+
+	vAssert(okOutRes, c12MsgOutRes)
+	vAssert(okOutDust, c12MsgOutDust)
+	vAssert(okDangling, c12MsgDangling)
+	vAssert(okInRes, c12MsgInRes)
+	vAssert(okInOther, c12MsgInOther)
+	vAssert(okNoExtra, c12MsgNoExtra)
 }
 
 func VerifC12Confirmed()   { c12Confirmed(1, false) }
